@@ -294,6 +294,7 @@ func (sc *scen) doRenewal(kind, mut string) *outcome {
 	sigsTerm := "None"
 	var hostInputs []types.V2SiacoinInput
 	second := func() (proto4.Object, string) {
+		w.runMid()
 		if a := abortOf(mut); a != "" {
 			return nil, a
 		}
